@@ -131,10 +131,14 @@ def run(chk):
     app = make_app()
     recs = []
     # ---- plain cookies
-    cps = [97, 98, 32, 59, 44, 61, 34, 39, 92, 63, 33, 37, 38, 43, 47, 126, 233, 255, 128, 0x100, 0x20AC, 0x4E2D, 0x1F600, 9]
-    for _ in range(3000 if thorough else 500):
+    cps = [97, 98, 32, 59, 44, 61, 34, 39, 92, 63, 33, 37, 38, 43, 47, 126, 233, 255, 128, 0x100, 0x20AC, 0x4E2D, 0x1F600, 9,
+           48, 49, 51, 55, 92]
+    # values whose quoted form contains what looks like an escape of the cookie quoting (\ooo octal, \", \\)
+    curated = ['C:\\101\\tmp', '\\101', '\\2024', '\\072', '\\377', '"\\134"', '\\\\101', 'a\\"b', '\\0', '\\12', '\\1234;x', 'x\\134\\073y',
+               '%41', '%5C101', 'a+b', '\\u0041', '\\x41']
+    for it in range((3000 if thorough else 500) + len(curated)):
         n = rng.choice([1, 1, 2, 3, 6, 20])
-        val = ''.join(chr(rng.choice(cps)) for _ in range(n))
+        val = curated[it] if it < len(curated) else ''.join(chr(rng.choice(cps)) for _ in range(n))
         name = rng.choice(['c', 'sid', 'a_b', 'X-1'])
         raw, st = set_and_capture(app, name, val, via=rng.choice(['response', 'raised', 'redirect']))
         if raw is None:
